@@ -129,6 +129,7 @@ func main() {
 		p.Stop()
 		origin.Close()
 	}
+	concurrentChains(run, root)
 	loops(run, root)
 	run.Floor("refused_with_own_element", 200)
 	run.Floor("forwarded_chains", 200)
